@@ -134,6 +134,11 @@ func H_C04_sign_constructed() {
 	present, isInt, a, _ := false, false, int64(0), false
 	if hasMap {
 		present, isInt, a, _ = mkAlgEntry("alg", prot)
+		if vTier() == 1 && vChoose("extra", 2) == 1 {
+			l := vInt64("extra.label")
+			vAssume(vOr(l > 300, l < -300))
+			prot[l] = vBlob("extra.v")
+		}
 		t.h.Protected = ProtectedHeader(prot)
 	}
 	t.h.Unprotected = UnprotectedHeader{}
